@@ -73,8 +73,9 @@ pub const FLOATS: [f64; 30] = [
     9007199254740993.0, 1e19, -1e19, 9.3e18, 1e300, -1e300, 5e-324, f64::MIN_POSITIVE, f64::INFINITY, f64::NEG_INFINITY, f64::NAN,
     0.1, 1e-7,
 ];
-pub const STRINGS: [&str; 35] = [
+pub const STRINGS: [&str; 43] = [
     "", "a", "ab", "abcabc", " a b ", "\t x\n", "\u{b}ab\u{b}", "\u{a0}nb\u{a0}", "\u{2003}em\u{3000}", "żółć", "ŻÓŁĆ", "ß", "İ",
+    " 7.5", "7.5\n", "7.5\r", "\u{a0}7.5", "2.5", "-0.0", "1e300", " inf ",
     // letters whose case mapping depends on their neighbours or is longer than one scalar
     "ΟΔΟΣ", "ΣΑΣ ΟΣ.", "aΣ", "Σ", "ŉǰ", "ﬁﬂ",
     "😀x", "a,b,,c", ",", "12", "-12", "+7", " 3", "1.5e3", "nan",
@@ -369,6 +370,20 @@ fn documented(name: &str, a: &[Variable], items: Option<&[Variable]>) -> Option<
             _ => return None,
         },
         "std.convert.parse_int" => opt_i(naive_parse_int(st(&a[0]))),
+        "std.convert.parse_float" => {
+            // "parses string as float": the canonical rendering of a float is read back as that float; a
+            // string with blanks around it (or nothing in it) is no more a float than it is an int for
+            // parse_int; other spellings are left to the implementation
+            let x = st(&a[0]);
+            if x.is_empty() || x.trim() != x {
+                Variable::Void
+            } else {
+                match x.parse::<f64>() {
+                    Ok(v) if format!("{v:?}") == x && v.is_finite() => f(v),
+                    _ => return None,
+                }
+            }
+        }
         // only what the documentation implies: ints, bools and () read as their literal, a string as itself
         "std.convert.to_string" => match &a[0] {
             Variable::Int(_) | Variable::Bool(_) | Variable::Void | Variable::String(_) => s(render(&a[0], true)?),
